@@ -39,7 +39,10 @@ impl VHDLFormatter<'_> {
             for (i, item) in clause.items.iter().enumerate() {
                 buffer.line_break();
                 self.format_interface_declaration(item, buffer);
-                if i < clause.items.len() - 1 {
+                // The last element is only followed by a `;` in VHDL 2019
+                if i < clause.items.len() - 1
+                    || self.tokens.index(item.get_end_token() + 1).kind == Kind::SemiColon
+                {
                     self.format_token_id(item.get_end_token() + 1, buffer);
                 }
             }
